@@ -52,33 +52,57 @@ if the written reaction has a net effect and whole-number totals (what the const
 * no key appears twice;
 * the parameter text handed to `eval` is exactly the first tail part, stripped (`none` without a tail): the
   stoichiometry is unaffected by whatever follows the first `;`. -/
-theorem parse_written (tok : Str) (reac prod : List Term) (tl : List Str) (htok : tokOK tok = true)
+theorem parse_written (ev : Bool) (tok : Str) (reac prod : List Term) (tl : List Str) (htok : tokOK tok = true)
     (hr : ∀ t ∈ reac, t.ok tok = true) (hp : ∀ t ∈ prod, t.ok tok = true)
-    (htl : ∀ p ∈ tl, ';' ∉ p ∧ '\n' ∉ p)
+    (htl : ∀ p ∈ tl, ';' ∉ p ∧ '\n' ∉ p) (hlen : tl.length ≤ 1)
+    (hev : ev = true → paramEvalOK (tl.head?.map strip) = true) (_hfloat : floatSafe reac prod = true)
     (heff : hasEffect reac prod = true) (hint : integralWritten reac prod = true) :
-    ∃ r, toReaction .none tok (writeLine tok reac prod ++ tailText tl) = .ok r ∧
+    ∃ r, toReaction ev .none tok (writeLine tok reac prod ++ tailText tl) = .ok r ∧
       (∀ k, dictGet r.reac k = written false k reac) ∧
       (∀ k, dictGet r.prod k = written false k prod) ∧
       (∀ k, dictGet r.inactReac k = written true k reac) ∧
       (∀ k, dictGet r.inactProd k = written true k prod) ∧
       (keysOf r.reac).Nodup ∧ (keysOf r.prod).Nodup ∧ (keysOf r.inactReac).Nodup ∧ (keysOf r.inactProd).Nodup ∧
-      r.param = tl.head?.map strip := by
-  refine ⟨{ parsedOf reac prod with param := tl.head?.map strip }, ?_, get_sorted_actD reac, get_sorted_actD prod,
+      r.param = finalParam ev (tl.head?.map strip) ∧ r.name = none := by
+  refine ⟨{ parsedOf reac prod with param := finalParam ev (tl.head?.map strip) }, ?_, get_sorted_actD reac, get_sorted_actD prod,
     get_sorted_inaD reac, get_sorted_inaD prod, (sortDict_spec (nodup_actD reac)).1, (sortDict_spec (nodup_actD prod)).1,
-    (sortDict_spec (nodup_inaD reac)).1, (sortDict_spec (nodup_inaD prod)).1, rfl⟩
-  rw [toReaction_written .none htok hr hp tl htl]
-  simp [allAllowed, Allowed.has, outcome, heff, hint]
+    (sortDict_spec (nodup_inaD reac)).1, (sortDict_spec (nodup_inaD prod)).1, rfl, rfl⟩
+  rw [toReaction_lift ev .none htok hr hp tl htl hlen hev, toReaction_written .none htok hr hp tl htl]
+  simp [allAllowed, Allowed.has, outcome, heff, hint, parsedOf]
+
+/-- **keyword parts**: `to_reaction` evaluates `dict(<third and further parts joined by ";">)` before anything else, even
+with `globals_=False`.  The model only recognises `name='…'` / `ref='…'` / `ref=<int>` texts; for those the line is read
+as without them and the name is set — e.g. on a written line followed by `; <param>; name='r1'`.  Every other keyword
+text (`checks=()`, which would disable the refusals, two keyword parts that do not re-join to a valid expression, …)
+is `unmodelled`: the theorems above deliberately say nothing about them (witnesses below). -/
+theorem keyword_name_read :
+    let err := fun (x : Except Err Reaction) => match x with | .error e => some e | .ok _ => none
+    (toReaction false .none "->".toList "A -> 2 B; 1.5 ; name='r1', ref=3".toList).toOption.map
+      (fun r => (keysOf r.reac, keysOf r.prod, r.param, r.name)) = some ([['A']], [['B']], none, some "r1".toList) ∧
+    err (toReaction false .none "->".toList "A -> A; 1; checks=()".toList) = some .unmodelled ∧
+    err (toReaction false .none "->".toList "A -> B; 1; name='a'; ref='b'".toList) = some .unmodelled ∧
+    (toReaction false .none "->".toList "A -> B; 1; name='a;b'".toList).toOption.map (fun r => r.name) = some (some "a;b".toList) ∧
+    err (toReaction true .none "->".toList "A B; 1/0".toList) = some .unmodelled ∧
+    err (toReaction true .none "->".toList "A -> B;".toList) = some .unmodelled := by decide +kernel
+
+/-- decimal sums outside `floatSafe`: the model adds exactly (4), Python adds doubles (3.9999999999999996, refused) —
+this is why `parse_written` carries the `floatSafe` hypothesis; the harness checks such lines against both references -/
+theorem decimal_sum_rounding_witness :
+    let reac : List Term := [⟨['A'], 1, .dec ['2'], false⟩, ⟨['A'], 1, .dec ['4'], false⟩, ⟨['A'], 1, .dec ['4'], false⟩]
+    floatSafe reac [⟨['B'], 1, .omit, false⟩] = false ∧ written false ['A'] reac = some ⟨4, true⟩ := by decide +kernel
 
 /-- the value a decimal coefficient text denotes, e.g. `2.50` ↦ 250/100: `float()` of the text, exactly -/
 theorem decimal_text_value (n : Nat) (fr : Str) (hn : 1 ≤ n) (hne : fr ≠ []) (hd : ∀ c ∈ fr, c.isDigit = true)
     (hlen : (natStr n).length + fr.length ≤ 15) :
     pyFloat (natStr n ++ '.' :: fr) = .ok (decValue n fr) := pyFloat_dec hn hne hd hlen
 
-/-- a written reaction whose species all cancel is refused (`check_any_effect`), never misread -/
+/-- a written reaction whose species all cancel is refused (`check_any_effect`), never misread — stated for the eval-free
+core `toReactionCore`; through `toReaction` it holds for lines with at most a parameter part (`toReaction_lift`), and NOT for
+lines with a keyword part such as `checks=()` (unmodelled, see `keyword_name_read`) -/
 theorem parse_written_no_effect (tok : Str) (reac prod : List Term) (tl : List Str) (htok : tokOK tok = true)
     (hr : ∀ t ∈ reac, t.ok tok = true) (hp : ∀ t ∈ prod, t.ok tok = true) (htl : ∀ p ∈ tl, ';' ∉ p ∧ '\n' ∉ p)
     (heff : hasEffect reac prod = false) :
-    toReaction .none tok (writeLine tok reac prod ++ tailText tl) = .error .noEffect := by
+    toReactionCore .none tok (writeLine tok reac prod ++ tailText tl) = .error .noEffect := by
   rw [toReaction_written .none htok hr hp tl htl]
   simp [allAllowed, Allowed.has, outcome, heff]
 
@@ -86,14 +110,14 @@ theorem parse_written_no_effect (tok : Str) (reac prod : List Term) (tl : List S
 theorem parse_written_non_integral (tok : Str) (reac prod : List Term) (tl : List Str) (htok : tokOK tok = true)
     (hr : ∀ t ∈ reac, t.ok tok = true) (hp : ∀ t ∈ prod, t.ok tok = true) (htl : ∀ p ∈ tl, ';' ∉ p ∧ '\n' ∉ p)
     (heff : hasEffect reac prod = true) (hint : integralWritten reac prod = false) :
-    toReaction .none tok (writeLine tok reac prod ++ tailText tl) = .error .nonIntegral := by
+    toReactionCore .none tok (writeLine tok reac prod ++ tailText tl) = .error .nonIntegral := by
   rw [toReaction_written .none htok hr hp tl htl]
   simp [allAllowed, Allowed.has, outcome, heff, hint]
 
 /-- **Unknown keys are rejected — for every line whatsoever** (not only well-written ones): when an allowed-key list is
 given and the parser returns a reaction, every key of its four dictionaries is in the list. -/
 theorem unknown_key_rejected (ks : List Str) (tok line : Str) (r : Reaction)
-    (h : toReaction (.list ks) tok line = .ok r) : ∀ k ∈ r.keys, k ∈ ks := by
+    (h : toReactionCore (.list ks) tok line = .ok r) : ∀ k ∈ r.keys, k ∈ ks := by
   intro k hk
   have := toReaction_keys_allowed h k hk
   simpa [Allowed.has] using this
@@ -103,7 +127,7 @@ sides) are listed; otherwise the answer is the `Unknown substance_key` error, ne
 theorem written_with_allowed_keys (ks : List Str) (tok : Str) (reac prod : List Term) (tl : List Str)
     (htok : tokOK tok = true) (hr : ∀ t ∈ reac, t.ok tok = true) (hp : ∀ t ∈ prod, t.ok tok = true)
     (htl : ∀ p ∈ tl, ';' ∉ p ∧ '\n' ∉ p) :
-    toReaction (.list ks) tok (writeLine tok reac prod ++ tailText tl) =
+    toReactionCore (.list ks) tok (writeLine tok reac prod ++ tailText tl) =
       if allAllowed (.list ks) reac prod then outcome reac prod (tl.head?.map strip) else .error .unknownKey :=
   toReaction_written (.list ks) htok hr hp tl htl
 
@@ -117,7 +141,7 @@ same dictionaries: the result compares equal to `r`. -/
 theorem print_parse_roundtrip (tok : Str) (r : Reaction) (htok : tokOK tok = true)
     (hre : GoodDict tok r.reac) (hpr : GoodDict tok r.prod) (hir : r.inactReac = []) (hip : r.inactProd = [])
     (heff : r.anyEffect = true) (hparam : r.param = none) :
-    ∃ s r', printReaction tok false false r = some s ∧ toReaction .none tok s = .ok r' ∧
+    ∃ s r', printReaction tok false false r = some s ∧ toReactionCore .none tok s = .ok r' ∧
       r'.reac = r.reac ∧ r'.prod = r.prod ∧ r'.inactReac = [] ∧ r'.inactProd = [] ∧ Reaction.eq r' r = true := by
   obtain ⟨s, hs, hparse⟩ := parse_print htok hre hpr hir hip heff
   refine ⟨s, _, hs, hparse, rfl, rfl, rfl, rfl, ?_⟩
@@ -129,7 +153,7 @@ value that text denotes: the original parameter at the printed precision (C20 pr
 theorem print_parse_roundtrip_param (tok : Str) (r : Reaction) (p : Str) (htok : tokOK tok = true)
     (hre : GoodDict tok r.reac) (hpr : GoodDict tok r.prod) (hir : r.inactReac = []) (hip : r.inactProd = [])
     (heff : r.anyEffect = true) (hparam : r.param = some p) (hpt : Tight p) (hps : ';' ∉ p) (hpn : '\n' ∉ p) :
-    ∃ s r', printReaction tok true false r = some s ∧ toReaction .none tok s = .ok r' ∧
+    ∃ s r', printReaction tok true false r = some s ∧ toReactionCore .none tok s = .ok r' ∧
       r'.param = some p ∧ Reaction.eq r' r = true := by
   obtain ⟨s, hs, hparse⟩ := parse_print_param htok hre hpr hir hip heff hparam hpt hps hpn
   refine ⟨s, _, hs, hparse, rfl, ?_⟩
@@ -144,7 +168,7 @@ parameters are printed. -/
 theorem system_roundtrip (tok : Str) (cts : List Str) (wp : Bool) (rs : List Reaction) (htok : tokOK tok = true)
     (hnl : '\n' ∉ tok) (h : ∀ r ∈ rs, Printable tok cts wp r) :
     ∃ text, printSystem tok wp false none rs = some text ∧
-      systemFromString cts .none tok text = .ok (rs.map (normal wp)) ∧
+      systemFromString true cts .none tok text = .ok (rs.map (normal wp)) ∧
       ∀ r ∈ rs, (wp = true ∨ r.param = none) → Reaction.eq (normal wp r) r = true := by
   obtain ⟨text, h1, h2⟩ := system_print_parse cts wp rs htok hnl h
   exact ⟨text, h1, h2, fun r hr hp => normal_eq (h r hr).noInactR (h r hr).noInactP hp⟩
@@ -160,7 +184,7 @@ theorem system_lines_read (cts : List Str) (ls : List Str) (hne : ls ≠ []) (h 
 
 /-- … in particular a line starting (after blanks) with a multi-character comment token is skipped -/
 theorem multi_char_comment_skipped :
-    (systemFromString ["//".toList, "#".toList] .none "->".toList "// note\n  // x -> y\nA -> B\n# z".toList).toOption.map
+    (systemFromString false ["//".toList, "#".toList] .none "->".toList "// note\n  // x -> y\nA -> B\n# z".toList).toOption.map
       (fun rs => rs.map fun r => (keysOf r.reac, keysOf r.prod)) = some [([['A']], [['B']])] := by decide +kernel
 
 /-! ### the parameter text and the constructor checks -/
@@ -189,10 +213,10 @@ theorem quoted_param_is_symbol (k : Str) (hk : '\'' ∉ k) :
 constructing it again with the default `checks` (`default_checks ^ {}` from the source) raises nothing; and naming both
 `checks` and `dont_check` is always refused. -/
 theorem parsed_passes_default_checks (allowed : Allowed) (tok line : Str) (r : Reaction)
-    (h : toReaction allowed tok line = .ok r) :
+    (h : toReactionCore allowed tok line = .ok r) :
     r.initChecks none none = .ok r ∧ ∀ cs dc, r.initChecks (some cs) (some dc) = .error .both := by
   refine ⟨?_, fun _ _ => rfl⟩
-  unfold toReaction at h
+  unfold toReactionCore at h
   split at h
   · simp at h
   · rename_i raw _
@@ -251,29 +275,29 @@ theorem copy_through_dict_resorts_witness :
 /-- a key that contains the arrow token is outside `parse_written` (`keyOK`): the line is split inside the key and the
 result is silently wrong — `C=O + H2 = CH3OH` is read as `C = H2 + O` -/
 theorem token_in_key_missplit_witness :
-    (toReaction .none "=".toList "C=O + H2 = CH3OH".toList).toOption.map (fun r => (keysOf r.reac, keysOf r.prod))
+    (toReactionCore .none "=".toList "C=O + H2 = CH3OH".toList).toOption.map (fun r => (keysOf r.reac, keysOf r.prod))
       = some ([['C']], [['H', '2'], ['O']]) := by decide +kernel
 
 /-- a line with a second arrow is accepted and everything after the second arrow is silently dropped -/
 theorem second_arrow_dropped_witness :
-    (toReaction .none "->".toList "A -> B -> C".toList).toOption.map (fun r => (keysOf r.reac, keysOf r.prod))
+    (toReactionCore .none "->".toList "A -> B -> C".toList).toOption.map (fun r => (keysOf r.reac, keysOf r.prod))
       = some ([['A']], [['B']]) := by decide +kernel
 
 /-- `substance_keys` given as a single word (a `str` without a space) is used as a SUBSTRING test -/
 theorem single_word_allowed_is_substring_witness :
-    (toReaction (Allowed.ofStr "H2O".toList) "->".toList "H2 -> O".toList).toOption.map (fun r => keysOf r.reac)
+    (toReactionCore (Allowed.ofStr "H2O".toList) "->".toList "H2 -> O".toList).toOption.map (fun r => keysOf r.reac)
       = some [['H', '2']] := by decide +kernel
 
 /-- a printed name is read back as the parameter text (`str(r)` / `ReactionSystem.string()` of a named reaction) -/
 theorem printed_name_read_as_param_witness :
     (printReaction "->".toList true true ⟨[(['A'], Coef.ofNat 1)], [(['B'], Coef.ofNat 1)], [], [], none, some "foo".toList⟩).bind
-      (fun s => (toReaction .none "->".toList s).toOption.map (fun r => r.param)) = some (some "foo".toList) := by
+      (fun s => (toReactionCore .none "->".toList s).toOption.map (fun r => r.param)) = some (some "foo".toList) := by
   decide +kernel
 
 /-- the header line of a named system is handed to the reaction parser (→ "Missing token") -/
 theorem named_system_header_witness :
     (printSystem "->".toList true true (some "sys".toList) [⟨[(['A'], Coef.ofNat 1)], [(['B'], Coef.ofNat 1)], [], [], none, none⟩]).map
-      (fun s => (systemFromString Printing.commentTokens .none "->".toList s).toOption.isNone) = some true := by decide +kernel
+      (fun s => (systemFromString false Printing.commentTokens .none "->".toList s).toOption.isNone) = some true := by decide +kernel
 
 /-- explicit zero coefficients are not printed, so such a reaction does not survive the round trip -/
 theorem zero_coefficient_not_printed_witness :
@@ -285,7 +309,7 @@ theorem zero_coefficient_not_printed_witness :
 theorem unsorted_ordered_dict_witness :
     let r : Reaction := ⟨[(['B'], Coef.ofNat 1), (['A'], Coef.ofNat 1)], [(['C'], Coef.ofNat 1)], [], [], none, none⟩
     (printReaction "->".toList false false r).bind
-      (fun s => (toReaction .none "->".toList s).toOption.map (fun r' => Reaction.eq r' r)) = some false := by
+      (fun s => (toReactionCore .none "->".toList s).toOption.map (fun r' => Reaction.eq r' r)) = some false := by
   decide +kernel
 
 /-! ### the hypotheses are satisfiable: concrete non-trivial instances -/
